@@ -34,6 +34,8 @@ where
 /*@*/     ensures
 /*@*/         cleanup_post(old, new, vstd::prelude::old(ops)@, final(ops)@),
 /*@*/ /*S*/         cleanup_post_exact(old, new, vstd::prelude::old(ops)@, final(ops)@),   // [C11]
+/*@*/         // every Insert is the last op or sits before an Equal it cannot slide across (so no Insert is followed by a Delete or an Insert)
+/*@*/         ins_stuck(rel_of(old, new), final(ops)@),   // [C09]
 {
     /*@*/ let ghost ops0 = ops@;
     // First attempt to compact all Deletions
@@ -47,7 +49,7 @@ where
         let op = *op__r;
         /*@*/ proof { let b = choose|b: OBox| cleanup_pre(old, new, ops@, b); assert(inv_pre(old, new, ops@, b)) by { reveal(inv_pre); } lemma_op_usable(old, new, ops@, pointer as int, b); }
         if let DiffTag::Delete = op.tag() {
-            /*@*/ let ghost s1 = ops@;
+            /*@*/ let ghost s1 = ops@; let ghost q1 = pointer as int;
             pointer = shift_diff_ops_up(ops, old, new, pointer);
             /*@*/ proof {
             /*@*/     let b = choose|b: OBox| cleanup_pre(old, new, s1, b);
@@ -55,7 +57,7 @@ where
             /*@*/     assert forall|b2: OBox| #[trigger] ops_full(old, new, ops0, b2, false) implies ops_full(old, new, ops@, b2, false) by { assert(ops_full(old, new, s1, b2, false)); }
             /*@*/ /*S*/     assert forall|b2: OBox| #[trigger] ops_full(old, new, ops0, b2, true) implies ops_full(old, new, ops@, b2, true) by { assert(ops_full(old, new, s1, b2, true)); }   // [C11]
             /*@*/ }
-            /*@*/ let ghost s1 = ops@;
+            /*@*/ let ghost s1 = ops@; let ghost q1 = pointer as int;
             pointer = shift_diff_ops_down(ops, old, new, pointer);
             /*@*/ proof {
             /*@*/     let b = choose|b: OBox| cleanup_pre(old, new, s1, b);
@@ -75,11 +77,14 @@ where
     /*@*/         exists|b: OBox| #[trigger] cleanup_pre(old, new, ops@, b),
     /*@*/         cleanup_post(old, new, ops0, ops@),
     /*@*/ /*S*/         cleanup_post_exact(old, new, ops0, ops@),   // [C11]
+    /*@*/         ins_stuck_upto(rel_of(old, new), ops@, pointer as int),   // [C09]
+    /*@*/     ensures
+    /*@*/         ins_stuck(rel_of(old, new), ops@),   // [C09]
     {
         let op = *op__r;
         /*@*/ proof { let b = choose|b: OBox| cleanup_pre(old, new, ops@, b); assert(inv_pre(old, new, ops@, b)) by { reveal(inv_pre); } lemma_op_usable(old, new, ops@, pointer as int, b); }
         if let DiffTag::Insert = op.tag() {
-            /*@*/ let ghost s1 = ops@;
+            /*@*/ let ghost s1 = ops@; let ghost q1 = pointer as int;
             pointer = shift_diff_ops_up(ops, old, new, pointer);
             /*@*/ proof {
             /*@*/     let b = choose|b: OBox| cleanup_pre(old, new, s1, b);
@@ -87,7 +92,8 @@ where
             /*@*/     assert forall|b2: OBox| #[trigger] ops_full(old, new, ops0, b2, false) implies ops_full(old, new, ops@, b2, false) by { assert(ops_full(old, new, s1, b2, false)); }
             /*@*/ /*S*/     assert forall|b2: OBox| #[trigger] ops_full(old, new, ops0, b2, true) implies ops_full(old, new, ops@, b2, true) by { assert(ops_full(old, new, s1, b2, true)); }   // [C11]
             /*@*/ }
-            /*@*/ let ghost s1 = ops@;
+            /*@*/ proof { lemma_stuck_after_up(rel_of(old, new), s1, ops@, q1, pointer as int); }   // [C09]
+            /*@*/ let ghost s1 = ops@; let ghost q1 = pointer as int;
             pointer = shift_diff_ops_down(ops, old, new, pointer);
             /*@*/ proof {
             /*@*/     let b = choose|b: OBox| cleanup_pre(old, new, s1, b);
@@ -95,8 +101,10 @@ where
             /*@*/     assert forall|b2: OBox| #[trigger] ops_full(old, new, ops0, b2, false) implies ops_full(old, new, ops@, b2, false) by { assert(ops_full(old, new, s1, b2, false)); }
             /*@*/ /*S*/     assert forall|b2: OBox| #[trigger] ops_full(old, new, ops0, b2, true) implies ops_full(old, new, ops@, b2, true) by { assert(ops_full(old, new, s1, b2, true)); }   // [C11]
             /*@*/ }
+            /*@*/ proof { lemma_stuck_after_down(rel_of(old, new), s1, ops@, q1, pointer as int); }   // [C09]
         }
         /*@*/ assert(pointer < ops.len() && ops.len() == ops@.len());
+        /*@*/ assert(ins_stuck_upto(rel_of(old, new), ops@, pointer as int + 1));   // [C09]
         pointer += 1;
     }
 }
@@ -121,15 +129,23 @@ where
 /*@*/         cleanup_post(old, new, vstd::prelude::old(ops)@, final(ops)@),
 /*@*/ /*S*/         cleanup_post_exact(old, new, vstd::prelude::old(ops)@, final(ops)@),   // [C11]
 /*@*/         res < final(ops)@.len(), op_tag(final(ops)@[res as int]) == op_tag(vstd::prelude::old(ops)@[pointer as int]),
+/*@*/         // frame: the op moved up; it stops at the front or behind an Equal; before that Equal nothing changed, and the Equal kept its start
+/*@*/         res <= pointer, same_before(vstd::prelude::old(ops)@, final(ops)@, res as int),   // [C09]
+/*@*/         res > 0 ==> final(ops)@[res - 1] is Equal,   // [C09]
 {
     /*@*/ let ghost ops0 = ops@; let ghost tag0 = op_tag(ops@[pointer as int]);
     /*@*/ let ghost bw = lemma_inv_init(old, new, ops@);
+    /*@*/ let ghost p0 = pointer as int; let ghost ins = tag0 == DiffTag::Insert;   // [C09]
+    /*@*/ proof { lemma_c9_init(ops0, p0, ins); }   // [C09]
     while let Some(prev_op__r) = match (pointer.checked_sub(1)) { Some(idx) => ops.get(idx), None => None }
     /*@*/     invariant
     /*@*/         pointer < ops.len(), ops.len() == ops@.len(),
     /*@*/         op_tag(ops@[pointer as int]) == tag0, tag0 == DiffTag::Insert || tag0 == DiffTag::Delete,
     /*@*/         inv_pre(old, new, ops@, bw), inv_post(old, new, ops0, ops@),
+    /*@*/         0 <= p0, ins == (tag0 == DiffTag::Insert), inv_up_frame(ops0, ops@, p0, pointer as int),   // [C09]
     /*@*/ /*S*/         inv_exact(old, new, ops0, ops@),   // [C11]
+    /*@*/     ensures
+    /*@*/         pointer > 0 ==> ops@[pointer - 1] is Equal,   // [C09]
     /*@*/     decreases pointer, (if pointer > 0 { olen(ops@[pointer - 1]) } else { 0 }),
     {
         let prev_op = *prev_op__r;
@@ -163,7 +179,7 @@ where
                     }
                     /*@*/ proof {
                     /*@*/     assert(ops@ =~= shift_up_result(s1, p, suffix_len));
-                    /*@*/     lemma_do_shift_up(old, new, ops0, s1, p, suffix_len, bw);
+                    /*@*/     lemma_up_shift(old, new, ops0, s1, p, suffix_len, bw, p0);
                     /*@*/ }
                 } else if ops[pointer - 1].is_empty() {
                     /*@*/ assert(false);   // dead: no op is empty at the loop head
@@ -217,7 +233,7 @@ where
                 /*@*/ proof {
                 /*@*/     assert(swapped(s1, ops@, p));
                 /*@*/     assert(swap_plain(s1, ops@, p) || swap_fixed(ops@, p));
-                /*@*/     lemma_do_swap(old, new, ops0, s1, ops@, p, bw);
+                /*@*/     lemma_up_swap(old, new, ops0, s1, ops@, p, bw, p0);
                 /*@*/ }
             }
             // Merge the two ranges
@@ -227,7 +243,7 @@ where
                 pointer -= 1;
                 /*@*/ proof {
                 /*@*/     assert(ops@ =~= merge_result(s1, p));
-                /*@*/     lemma_do_merge(old, new, ops0, s1, p, bw);
+                /*@*/     lemma_up_merge(old, new, ops0, s1, p, bw, p0);
                 /*@*/ }
             }
             (DiffTag::Delete, DiffTag::Delete) => {
@@ -236,13 +252,14 @@ where
                 pointer -= 1;
                 /*@*/ proof {
                 /*@*/     assert(ops@ =~= merge_result(s1, p));
-                /*@*/     lemma_do_merge(old, new, ops0, s1, p, bw);
+                /*@*/     lemma_up_merge(old, new, ops0, s1, p, bw, p0);
                 /*@*/ }
             }
             _ => unreachable!("unexpected tag"),
         }
     }
     /*@*/ proof { lemma_inv_exit(old, new, ops0, ops@); }
+    /*@*/ proof { lemma_c9_exit(ops0, ops@, p0, pointer as int, ins); }   // [C09]
     pointer
 }
 //@@ end
@@ -266,15 +283,25 @@ where
 /*@*/         cleanup_post(old, new, vstd::prelude::old(ops)@, final(ops)@),
 /*@*/ /*S*/         cleanup_post_exact(old, new, vstd::prelude::old(ops)@, final(ops)@),   // [C11]
 /*@*/         res < final(ops)@.len(), op_tag(final(ops)@[res as int]) == op_tag(vstd::prelude::old(ops)@[pointer as int]),
+/*@*/         // frame: the op moved down; before where it was nothing changed, except that an Equal right before it kept its start
+/*@*/         res >= pointer, same_before(vstd::prelude::old(ops)@, final(ops)@, pointer as int),   // [C09]
+/*@*/         // an Insert leaves no Insert behind on its way, and where it stops it is stuck: last op, or in front of an Equal whose first item differs from the first inserted item
+/*@*/         op_tag(vstd::prelude::old(ops)@[pointer as int]) == DiffTag::Insert ==> no_insert_in(final(ops)@, pointer as int, res as int),   // [C09]
+/*@*/         op_tag(vstd::prelude::old(ops)@[pointer as int]) == DiffTag::Insert ==> ins_stuck_at(rel_of(old, new), final(ops)@, res as int),   // [C09]
 {
     /*@*/ let ghost ops0 = ops@; let ghost tag0 = op_tag(ops@[pointer as int]);
     /*@*/ let ghost bw = lemma_inv_init(old, new, ops@);
+    /*@*/ let ghost p0 = pointer as int; let ghost ins = tag0 == DiffTag::Insert;   // [C09]
+    /*@*/ proof { lemma_c9_init(ops0, p0, ins); }   // [C09]
     while let Some(next_op__r) = match (pointer.checked_add(1)) { Some(idx) => ops.get(idx), None => None }
     /*@*/     invariant
     /*@*/         pointer < ops.len(), ops.len() == ops@.len(),
     /*@*/         op_tag(ops@[pointer as int]) == tag0, tag0 == DiffTag::Insert || tag0 == DiffTag::Delete,
     /*@*/         inv_pre(old, new, ops@, bw), inv_post(old, new, ops0, ops@),
+    /*@*/         0 <= p0, ins == (tag0 == DiffTag::Insert), inv_down_frame(ops0, ops@, p0, pointer as int, ins),   // [C09]
     /*@*/ /*S*/         inv_exact(old, new, ops0, ops@),   // [C11]
+    /*@*/     ensures
+    /*@*/         ins ==> stuck_here(old, new, ops@, pointer as int),   // [C09]
     /*@*/     decreases ops@.len() - pointer, (if pointer + 1 < ops@.len() { olen(ops@[pointer + 1]) } else { 0 }),
     {
         let next_op = *next_op__r;
@@ -312,13 +339,14 @@ where
                     }
                     /*@*/ proof {
                     /*@*/     assert(ops@ =~= shift_down_result(s1, p, prefix_len));
-                    /*@*/     lemma_do_shift_down(old, new, ops0, s1, p, prefix_len, bw);
+                    /*@*/     lemma_down_shift(old, new, ops0, s1, p, prefix_len, bw, p0, ins);
                     /*@*/ }
                 } else if ops[pointer + 1].is_empty() {
                     /*@*/ assert(false);   // dead: no op is empty at the loop head
                     ops.remove(pointer + 1);
                 } else {
                     // We can't shift upwards anymore
+                    /*@*/ proof { lemma_c9_break(old, new, s1, p, prefix_len); }   // [C09]
                     break;
                 }
             }
@@ -367,7 +395,7 @@ where
                 /*@*/ proof {
                 /*@*/     assert(swapped(s1, ops@, p + 1));
                 /*@*/     assert(swap_plain(s1, ops@, p + 1) || swap_fixed(ops@, p + 1));
-                /*@*/     lemma_do_swap(old, new, ops0, s1, ops@, p + 1, bw);
+                /*@*/     lemma_down_swap(old, new, ops0, s1, ops@, p, bw, p0, ins);
                 /*@*/ }
             }
             // Merge the two ranges
@@ -376,7 +404,7 @@ where
                 ops.remove(pointer + 1);
                 /*@*/ proof {
                 /*@*/     assert(ops@ =~= merge_result(s1, p + 1));
-                /*@*/     lemma_do_merge(old, new, ops0, s1, p + 1, bw);
+                /*@*/     lemma_down_merge(old, new, ops0, s1, p, bw, p0, ins);
                 /*@*/ }
             }
             (DiffTag::Delete, DiffTag::Delete) => {
@@ -384,13 +412,15 @@ where
                 ops.remove(pointer + 1);
                 /*@*/ proof {
                 /*@*/     assert(ops@ =~= merge_result(s1, p + 1));
-                /*@*/     lemma_do_merge(old, new, ops0, s1, p + 1, bw);
+                /*@*/     lemma_down_merge(old, new, ops0, s1, p, bw, p0, ins);
                 /*@*/ }
             }
             _ => unreachable!("unexpected tag"),
         }
     }
     /*@*/ proof { lemma_inv_exit(old, new, ops0, ops@); }
+    /*@*/ proof { lemma_c9_exit(ops0, ops@, p0, pointer as int, ins); }   // [C09]
+    /*@*/ proof { lemma_c9_stuck_exit(old, new, ops@, pointer as int); }   // [C09]
     pointer
 }
 //@@ end
@@ -580,6 +610,147 @@ proof fn lemma_do_swap<Old: Index<usize> + ?Sized, New: Index<usize> + ?Sized>(o
     assert(ops_full(old, new, s1, bw, false) && carried_ok(s1)) by { reveal(inv_pre); }
     lemma_arm_swap(old, new, s1, s2, p, bw);
     lemma_inv_step(old, new, ops0, s1, s2, bw);
+}
+
+// ---------------------------------------------------------------------------------------------
+// C09 (latest insertion position): the frame the two shift loops carry, behind opaque names
+// ---------------------------------------------------------------------------------------------
+#[verifier::opaque]
+spec fn inv_up_frame(ops0: Seq<DiffOp>, cur: Seq<DiffOp>, p0: int, p: int) -> bool { p <= p0 && same_before(ops0, cur, p) }
+
+#[verifier::opaque]
+spec fn inv_down_frame(ops0: Seq<DiffOp>, cur: Seq<DiffOp>, p0: int, p: int, ins: bool) -> bool {
+    p0 <= p && same_before(ops0, cur, p0) && (ins ==> no_insert_in(cur, p0, p))
+}
+
+/// `ins_stuck_at` for the op the loop of `shift_diff_ops_down` works on, behind an opaque name (the relation is a closure over the two sequences)
+#[verifier::opaque]
+spec fn stuck_core<Old: Index<usize> + ?Sized, New: Index<usize> + ?Sized>(old: &Old, new: &New, ops: Seq<DiffOp>, p: int) -> bool
+  where New::Output: PartialEq<Old::Output>
+{ ins_stuck_at(rel_of(old, new), ops, p) }
+
+spec fn stuck_here<Old: Index<usize> + ?Sized, New: Index<usize> + ?Sized>(old: &Old, new: &New, ops: Seq<DiffOp>, p: int) -> bool
+  where New::Output: PartialEq<Old::Output>
+{ p + 1 < ops.len() ==> stuck_core(old, new, ops, p) }
+
+/// where the Insert arm gives up: `common_prefix_len` has compared the first pair of two non-empty ranges and found the items different
+proof fn lemma_c9_break<Old: Index<usize> + ?Sized, New: Index<usize> + ?Sized>(old: &Old, new: &New, s1: Seq<DiffOp>, p: int, res: usize)
+  where New::Output: PartialEq<Old::Output>
+    requires 0 <= p, p + 1 < s1.len(), s1[p] is Insert, s1[p + 1] is Equal, around_usable(old, new, s1, p), res == 0,
+        // the last clause of common_prefix_len's contract, for the ranges it was called with
+        (op_old_range(s1[p + 1]).start + res < op_old_range(s1[p + 1]).end && op_new_range(s1[p]).start + res < op_new_range(s1[p]).end)
+            ==> !eqv(old, op_old_range(s1[p + 1]).start + res, new, op_new_range(s1[p]).start + res),
+    ensures stuck_core(old, new, s1, p),
+{ reveal(stuck_core); }
+
+proof fn lemma_c9_stuck_exit<Old: Index<usize> + ?Sized, New: Index<usize> + ?Sized>(old: &Old, new: &New, ops: Seq<DiffOp>, p: int)
+  where New::Output: PartialEq<Old::Output>
+    ensures stuck_here(old, new, ops, p) == ins_stuck_at(rel_of(old, new), ops, p),
+{ reveal(stuck_core); }
+
+proof fn lemma_c9_init(ops0: Seq<DiffOp>, p: int, ins: bool)
+    requires 0 <= p < ops0.len(),
+    ensures inv_up_frame(ops0, ops0, p, p), inv_down_frame(ops0, ops0, p, p, ins),
+{
+    reveal(inv_up_frame); reveal(inv_down_frame);
+    lemma_same_before_refl(ops0, p);
+}
+
+proof fn lemma_c9_exit(ops0: Seq<DiffOp>, cur: Seq<DiffOp>, p0: int, p: int, ins: bool)
+    ensures inv_up_frame(ops0, cur, p0, p) == (p <= p0 && same_before(ops0, cur, p)),
+        inv_down_frame(ops0, cur, p0, p, ins) == (p0 <= p && same_before(ops0, cur, p0) && (ins ==> no_insert_in(cur, p0, p))),
+{
+    reveal(inv_up_frame); reveal(inv_down_frame);
+}
+
+// the arms of the two loops: the invariants of C02/C10/C11 (lemma_do_*) and the frame of C09 in one step each
+proof fn lemma_up_shift<Old: Index<usize> + ?Sized, New: Index<usize> + ?Sized>(old: &Old, new: &New, ops0: Seq<DiffOp>, s1: Seq<DiffOp>, p: int, s: usize, bw: OBox, p0: int)
+  where New::Output: PartialEq<Old::Output>
+    requires inv_pre(old, new, s1, bw), inv_post(old, new, ops0, s1), 1 <= p < s1.len(),
+        s1[p - 1] is Equal, s1[p] is Insert, 0 < s <= op_old_len(s1[p - 1]), s <= op_new_len(s1[p]),
+        forall|k: int| 0 <= k < s ==> #[trigger] relk(rel_of(old, new), op_old_end(s1[p - 1]) - s, op_new_end(s1[p]) - s, k),
+        inv_up_frame(ops0, s1, p0, p),
+    ensures inv_pre(old, new, shift_up_result(s1, p, s), bw), inv_post(old, new, ops0, shift_up_result(s1, p, s)),
+        inv_exact(old, new, ops0, s1) ==> inv_exact(old, new, ops0, shift_up_result(s1, p, s)),
+        inv_up_frame(ops0, shift_up_result(s1, p, s), p0, if op_old_len(s1[p - 1]) == s { p - 1 } else { p }),
+{
+    lemma_do_shift_up(old, new, ops0, s1, p, s, bw);
+    reveal(inv_up_frame);
+    lemma_frame_shift_up(ops0, s1, p, s);
+}
+
+proof fn lemma_up_swap<Old: Index<usize> + ?Sized, New: Index<usize> + ?Sized>(old: &Old, new: &New, ops0: Seq<DiffOp>, s1: Seq<DiffOp>, s2: Seq<DiffOp>, p: int, bw: OBox, p0: int)
+  where New::Output: PartialEq<Old::Output>
+    requires inv_pre(old, new, s1, bw), inv_post(old, new, ops0, s1), swapped(s1, s2, p), swap_plain(s1, s2, p) || swap_fixed(s2, p),
+        inv_up_frame(ops0, s1, p0, p),
+    ensures inv_pre(old, new, s2, bw), inv_post(old, new, ops0, s2),
+        inv_exact(old, new, ops0, s1) && swap_fixed(s2, p) ==> inv_exact(old, new, ops0, s2),
+        inv_up_frame(ops0, s2, p0, p - 1),
+{
+    lemma_do_swap(old, new, ops0, s1, s2, p, bw);
+    reveal(inv_up_frame);
+    assert forall|i: int| 0 <= i < p - 1 implies s1[i] == #[trigger] s2[i] by {}
+    lemma_same_before_dec(ops0, s1, s2, p);
+}
+
+proof fn lemma_up_merge<Old: Index<usize> + ?Sized, New: Index<usize> + ?Sized>(old: &Old, new: &New, ops0: Seq<DiffOp>, s1: Seq<DiffOp>, p: int, bw: OBox, p0: int)
+  where New::Output: PartialEq<Old::Output>
+    requires inv_pre(old, new, s1, bw), inv_post(old, new, ops0, s1), 1 <= p < s1.len(),
+        (s1[p - 1] is Insert && s1[p] is Insert) || (s1[p - 1] is Delete && s1[p] is Delete),
+        inv_up_frame(ops0, s1, p0, p),
+    ensures inv_pre(old, new, merge_result(s1, p), bw), inv_post(old, new, ops0, merge_result(s1, p)),
+        inv_exact(old, new, ops0, s1) ==> inv_exact(old, new, ops0, merge_result(s1, p)),
+        inv_up_frame(ops0, merge_result(s1, p), p0, p - 1),
+{
+    lemma_do_merge(old, new, ops0, s1, p, bw);
+    reveal(inv_up_frame);
+    let s2 = merge_result(s1, p);
+    assert forall|i: int| 0 <= i < p - 1 implies s1[i] == #[trigger] s2[i] by {}
+    lemma_same_before_dec(ops0, s1, s2, p);
+}
+
+proof fn lemma_down_shift<Old: Index<usize> + ?Sized, New: Index<usize> + ?Sized>(old: &Old, new: &New, ops0: Seq<DiffOp>, s1: Seq<DiffOp>, p: int, s: usize, bw: OBox, p0: int, ins: bool)
+  where New::Output: PartialEq<Old::Output>
+    requires inv_pre(old, new, s1, bw), inv_post(old, new, ops0, s1), 0 <= p, p + 1 < s1.len(),
+        s1[p + 1] is Equal, s1[p] is Insert, 0 < s <= op_old_len(s1[p + 1]), s <= op_new_len(s1[p]),
+        forall|k: int| 0 <= k < s ==> #[trigger] relk(rel_of(old, new), op_old_index(s1[p + 1]) as int, op_new_index(s1[p]) as int, k),
+        inv_down_frame(ops0, s1, p0, p, ins),
+    ensures inv_pre(old, new, shift_down_result(s1, p, s), bw), inv_post(old, new, ops0, shift_down_result(s1, p, s)),
+        inv_exact(old, new, ops0, s1) ==> inv_exact(old, new, ops0, shift_down_result(s1, p, s)),
+        inv_down_frame(ops0, shift_down_result(s1, p, s), p0, if down_grew(s1, p) { p } else { p + 1 }, ins),
+{
+    lemma_do_shift_down(old, new, ops0, s1, p, s, bw);
+    reveal(inv_down_frame);
+    lemma_frame_shift_down(ops0, s1, p0, p, s, ins);
+}
+
+/// `ops.swap(p, p + 1)` in `shift_diff_ops_down`
+proof fn lemma_down_swap<Old: Index<usize> + ?Sized, New: Index<usize> + ?Sized>(old: &Old, new: &New, ops0: Seq<DiffOp>, s1: Seq<DiffOp>, s2: Seq<DiffOp>, p: int, bw: OBox, p0: int, ins: bool)
+  where New::Output: PartialEq<Old::Output>
+    requires inv_pre(old, new, s1, bw), inv_post(old, new, ops0, s1), swapped(s1, s2, p + 1), swap_plain(s1, s2, p + 1) || swap_fixed(s2, p + 1),
+        inv_down_frame(ops0, s1, p0, p, ins), 0 <= p0, ins ==> s1[p] is Insert,
+    ensures inv_pre(old, new, s2, bw), inv_post(old, new, ops0, s2),
+        inv_exact(old, new, ops0, s1) && swap_fixed(s2, p + 1) ==> inv_exact(old, new, ops0, s2),
+        inv_down_frame(ops0, s2, p0, p + 1, ins),
+{
+    lemma_do_swap(old, new, ops0, s1, s2, p + 1, bw);
+    reveal(inv_down_frame);
+    lemma_frame_swap_down(ops0, s1, s2, p0, p, ins);
+}
+
+/// `merge_result(s1, p + 1)` in `shift_diff_ops_down`
+proof fn lemma_down_merge<Old: Index<usize> + ?Sized, New: Index<usize> + ?Sized>(old: &Old, new: &New, ops0: Seq<DiffOp>, s1: Seq<DiffOp>, p: int, bw: OBox, p0: int, ins: bool)
+  where New::Output: PartialEq<Old::Output>
+    requires inv_pre(old, new, s1, bw), inv_post(old, new, ops0, s1), 0 <= p, p + 1 < s1.len(),
+        (s1[p] is Insert && s1[p + 1] is Insert) || (s1[p] is Delete && s1[p + 1] is Delete),
+        inv_down_frame(ops0, s1, p0, p, ins), 0 <= p0,
+    ensures inv_pre(old, new, merge_result(s1, p + 1), bw), inv_post(old, new, ops0, merge_result(s1, p + 1)),
+        inv_exact(old, new, ops0, s1) ==> inv_exact(old, new, ops0, merge_result(s1, p + 1)),
+        inv_down_frame(ops0, merge_result(s1, p + 1), p0, p, ins),
+{
+    lemma_do_merge(old, new, ops0, s1, p + 1, bw);
+    reveal(inv_down_frame);
+    lemma_frame_merge_down(ops0, s1, p0, p, ins);
 }
 
 } // verus!
